@@ -71,7 +71,8 @@ def run_witness(binpath, w):
         elif kind == "roundtrip":
             # C12: print each value with string_repr, then evaluate the printed text and compare
             vals = w["input"]
-            prog = "\n".join("println(string_repr(%s))" % v for v in vals)
+            defs = w.get("defs", "")
+            prog = defs + "\n".join("println(string_repr(%s))" % v for v in vals)
             f = os.path.join(tmpdir, "a.gdn")
             open(f, "w", encoding="utf-8").write(prog + "\n")
             p1 = subprocess.run([binpath, "run", f], capture_output=True, text=True, timeout=w.get("timeout", 30), cwd=tmpdir)
@@ -82,7 +83,7 @@ def run_witness(binpath, w):
             if p1.returncode == 101 or "panicked at" in p1.stderr or len(printed) != len(vals):
                 bad_items.append("printing failed: rc=%s lines=%d/%d %s" % (p1.returncode, len(printed), len(vals), p1.stderr[-200:]))
             else:
-                prog2 = "\n".join("println(string_repr((%s) == (%s)))" % (t, v) for t, v in zip(printed, vals))
+                prog2 = defs + "\n".join("println(string_repr((%s) == (%s)))" % (t, v) for t, v in zip(printed, vals))
                 f2 = os.path.join(tmpdir, "b.gdn")
                 open(f2, "w", encoding="utf-8").write(prog2 + "\n")
                 p2 = subprocess.run([binpath, "run", f2], capture_output=True, text=True, timeout=w.get("timeout", 30), cwd=tmpdir)
